@@ -28,7 +28,7 @@ import (
 
 type E = map[string]interface{}
 
-var callDeadline = 10 * time.Second
+var callDeadline = 60 * time.Second // "never blocks forever" is decided up to this deadline
 
 // ---------------------------------------------------------------- backends
 
